@@ -124,6 +124,7 @@ func TestVerifC16Mapping(t *testing.T) {
 	n := run.Pick(150, 1500)
 	run.Floor("close_landed_while_periodic_report_in_flight", 50)
 	run.Floor("trials_with_traffic_reported", 100)
+	run.Floor("trials_all_tunnels_accounted_before_close", 100)
 	scope := []string{"tunnox-core/internal/client/mapping", "tunnox-core/internal/client/tunnel", "tunnox-core/internal/utils/iocopy"}
 	for trial := 0; trial < n && run.Violations() < 20 && run.Counter("leak_violations") < 3; trial++ {
 		nt := 1 + r.Intn(3)
@@ -188,14 +189,26 @@ func TestVerifC16Mapping(t *testing.T) {
 			farLocal.Close() // both peers hang up: the tunnel's copy finishes and it closes itself
 			farTunnel.Close()
 		}
-		// the finished tunnels have handed their totals to the handler when they are gone
-		// from its tunnel manager
+		// The finished tunnels must have HANDED THEIR TOTALS to the handler before Close
+		// begins: only such totals are promised to be reported. A tunnel unregisters from the
+		// manager BEFORE it runs OnClosed (where the handler adds the totals), so "gone from
+		// the manager" is not enough; the tunnel's own goroutines (its copy goroutine calls
+		// Close -> OnClosed and then returns) being gone is. Tunnels that are still finishing
+		// while the handler closes are not judged by this monitor: /repo runs its final report
+		// before it closes the tunnel manager and does not wait for OnClosed callbacks in
+		// flight, so their bytes may legitimately be reported or not.
 		dl := time.Now().Add(10 * time.Second)
-		for ok && h.GetTunnelManager().CountTunnels() > 0 {
+		for ok {
+			if h.GetTunnelManager().CountTunnels() == 0 && !c16TunnelGoroutinesAlive(snap) {
+				break
+			}
 			runtime.Gosched()
 			if time.Now().After(dl) {
 				ok = false
 			}
+		}
+		if ok {
+			run.Count("trials_all_tunnels_accounted_before_close", 1)
 		}
 		if !ok {
 			run.Count("watchdog", 1)
@@ -313,4 +326,31 @@ func trimArgs(fn string) string {
 		}
 	}
 	return fn
+}
+
+// c16TunnelGoroutinesAlive: is any goroutine created since snap still inside the client
+// tunnel package or its copy helper (= a tunnel of this trial has not finished closing)?
+func c16TunnelGoroutinesAlive(snap vk.LeakSnapshot) bool {
+	for _, g := range vk.Goroutines() {
+		if _, old := snap[g.ID]; old {
+			continue
+		}
+		for _, line := range splitLines(g.Stack) {
+			if len(line) > 12 && line[:12] == "tunnox-core/" {
+				if hasPrefixAny(line, "tunnox-core/internal/client/tunnel.", "tunnox-core/internal/utils/iocopy.") {
+					return true
+				}
+			}
+		}
+	}
+	return false
+}
+
+func hasPrefixAny(s string, ps ...string) bool {
+	for _, p := range ps {
+		if len(s) >= len(p) && s[:len(p)] == p {
+			return true
+		}
+	}
+	return false
 }
